@@ -1,10 +1,10 @@
 #!/venv/bin/python
 """Run checks against a seeded change:  checker/seeded.py <patch.diff> <Cxx> [<Cyy> ...]
-Applies the patch to /repo (which must be clean), runs the given checks, ALWAYS restores /repo, prints one JSON line."""
+Applies the patch to /repo (or $QSC_REPO; which must be clean), runs the given checks, ALWAYS restores /repo, prints one JSON line."""
 import sys, os, subprocess, json, time
 
 VERIF = os.path.dirname(os.path.dirname(os.path.abspath(__file__)))
-REPO = '/repo'
+REPO = os.environ.get('QSC_REPO', '/repo')   # a parallel worker (checker/par_seeded.py) points this at its own worktree
 
 
 def sh(cmd, **kw):
